@@ -318,9 +318,20 @@ def run_case(sh, env, outcome, msg_class, vflags, listener, ansi, quiet=False, l
     else:
         fn = raiser(env, outcome[1], message)
 
+        wrap = getattr(env, "case_no", 0) % 4
+
         def behaviour(command, args, io):
             escaped.append(outcome[1])
-            fn()
+            # "raised at any point": also inside the context managers the I/O hands out
+            if wrap == 1:
+                with io.indent(2):
+                    fn()
+            elif wrap == 2:
+                with io.increment_indent(1):
+                    with io.output.indent(3):
+                        fn()
+            else:
+                fn()
         log.behaviour = behaviour
 
     config_debug = (getattr(env, "case_no", 0) % 7 == 3)
